@@ -76,6 +76,9 @@ def flat_args(data, base):
                 n, d, _ = frac(it.get(k, it.get(k.capitalize(), 0)))
                 out += [n, d]
             tsv = it.get("timestamp", it.get("Timestamp"))
+            # the kind of value the caller put there is part of "unchanged" (a string must stay a string)
+            out.append(2 if isinstance(tsv, str) else 1 if tsv is not None else 0)
+            out.append(sum(1 for k in it if str(k).lower() == "timestamp"))
             if isinstance(tsv, str):
                 from datetime import datetime as _dt
 
@@ -638,9 +641,12 @@ def record(sc):
                         variants = [[i] for i in ses.active if i < len(sc["inds"])]
                     else:
                         variants = [list(reversed(range(len(sc["inds"]))))]
+                    forms0 = sc.get("member_forms", ["obj"] * len(sc["inds"]))
                     for order in variants:
+                        # (each member in the form it was given in: how a member is spelled must not matter,
+                        #  so it must not matter for the twin either)
                         sc2 = dict(sc, inds=[sc["inds"][i] for i in order], late=[],
-                                   member_forms=["obj"] * len(order))
+                                   member_forms=[forms0[i] if i < len(forms0) else "obj" for i in order])
                         tw = run_prog(sc2, base, prog)
                         twm = dict(tw.managers())
                         for i in order:
